@@ -325,6 +325,7 @@ func ruleC12(c *Ctx, r *Report) {
 		}
 		// ---- R3: verb list and the store shape
 		r.Floor("C12-R3", 2, "key list + store shape")
+		noDoubleRewriteRule(c, r, "C12-R3")
 		var keys []string
 		var loop *IterLoop
 		for _, l := range iterLoops(nsFn) {
@@ -404,6 +405,20 @@ func ruleC12(c *Ctx, r *Report) {
 			}
 		}
 		r.Check(len(missing) == 0 && (loop != nil || unrolledOK), "C12-R3", nsFn.Name()+":verb-list", c.Pos(nsFn.Pos()), fmt.Sprintf("%d namespace-bearing command keys", len(keys)), fmt.Sprintf("namespace-bearing command keys no longer rewritten: %v", missing))
+		// each key once: a name listed twice is rewritten twice - the pseudonym of the pseudonym
+		{
+			count := map[string]int{}
+			var twice []string
+			for _, k := range keys {
+				count[k]++
+				if count[k] == 2 {
+					twice = append(twice, k)
+				}
+			}
+			sort.Strings(twice)
+			r.Check(len(twice) == 0, "C12-R3", nsFn.Name()+":verb-list-distinct", c.Pos(nsFn.Pos()), "every namespace-bearing key is listed once",
+				fmt.Sprintf("listed more than once: %v - the rewriter visits the key again and stores HashName of the pseudonym it stored the first time, so the collection named by that verb gets a pseudonym that differs from the one in attr.ns and on other lines", twice))
+		}
 		okStore := false
 		if loop != nil {
 			allInstrs(nsFn, func(i ssa.Instruction) {
